@@ -23,7 +23,7 @@ CLAIMS = {
     ),
     "C15": dict(
         technique="Verus contracts on three anchored fragments of the real apply_schema (table-drop guard, per-table column/primary-key rules, new-column rules with a ghost DDL log) + structural obligations on apply_schema's statement texts and on execute_schema's transaction/commit/assignment order; replay on an in-memory cr-sqlite database",
-        text="Proof, for all pairs of current/new schemas (any tables, columns, definitions, key orders), of the additive rules the property lists: apply_schema returns Ok only if every existing table is still present, every existing column of a table present in both is present and unchanged, and the primary key is the same column sequence; a new column that is a primary key, or NOT NULL without a default, is rejected before any DDL, otherwise exactly one ALTER TABLE … ADD COLUMN runs. Structural: the only DROP TABLE / RENAME texts sit in a branch closed by the changed-columns guard; execute_schema builds the candidate by inserting into a clone, constrains it before any SQL, applies inside one immediate transaction committed with `?`, and replaces the in-memory schema only after that succeeded, under the schema write lock. Not decided: what SQLite/cr-sqlite do with the DDL (rows kept, rollback), idempotence of the index part, Schema::constrain's own rules, restart (init_schema re-reads __corro_schema).",
+        text="Proof, for all pairs of current/new schemas (any tables, columns, definitions, key orders), of the additive rules the property lists: apply_schema returns Ok only if every existing table is still present, every existing column of a table present in both is present and unchanged, and the primary key is the same column sequence; a new column that is a primary key, or NOT NULL without a default, is rejected before any DDL, otherwise exactly one ALTER TABLE … ADD COLUMN runs; exactly the indexes the new definition adds are created (never a unique one) and exactly those it no longer lists are dropped, so re-applying the same definition creates and drops nothing. Structural: the only DROP TABLE / RENAME texts sit in a branch closed by the changed-columns guard; execute_schema builds the candidate by inserting into a clone, constrains it before any SQL, applies inside one immediate transaction committed with `?`, and replaces the in-memory schema only after that succeeded, under the schema write lock. Not decided: what SQLite/cr-sqlite do with the DDL (rows kept, rollback), replacement of changed indexes (a closure with `?`), Schema::constrain's own rules; restart is decided only as far as init_schema reads every persisted row (keyed by the unique object name) and execute_schema refreshes those rows wholesale.",
         note="Assumed: the HashSet-difference idiom and filter_map/collect are replaced by set-valued stand-ins keeping the real closure; derived PartialEq on Column is field-wise; names are a stand-in text type; SQL AST payloads opaque.",
     ),
     "C14": dict(
